@@ -314,6 +314,27 @@ Definition mem_nat (i : nat) (l : list nat) := existsb (Nat.eqb i) l.
 
 Definition well_bracketed (body : list fop) : bool := framed body.
 
+(* hypotheses of the equivalence theorem Proofs/LowAltEq.dspec_is_spec21, in boolean form *)
+(* the depth counter is consistent with the nesting: no else / end at depth 0 *)
+Fixpoint okdepth (depth : nat) (l : list (nat * fop)) : bool :=
+  match l with
+  | [] => true
+  | (_, op) :: l' =>
+      match op with
+      | FBlock _ | FLoop _ | FIf _ => okdepth (S depth) l'
+      | FElse => Nat.leb 1 depth && okdepth depth l'
+      | FEnd => Nat.leb 1 depth && okdepth (depth - 1) l'
+      | _ => okdepth depth l'
+      end
+  end.
+
+(* the boolean form of the hypotheses, evaluated by the checker on every sampled case *)
+Definition quiet_posb (plan : list (nat * mode * list fop)) (last j : nat) : bool :=
+  is_nil (acc_code plan j MBefore) && is_nil (acc_code plan j MAfter) && is_none (acc_repl plan j MAlternate None) && Nat.ltb j last.
+Definition eqdom (plan : list (nat * mode * list fop)) (body : list fop) : bool :=
+  okdepth 1 (index_from 0 body) && forallb (quiet_posb plan (length body - 1)) (removed plan body).
+
+
 Definition accepts (op : fop) (m : mode) : bool :=
   match m with
   | MSemanticAfter => is_block_style op || is_branching op
@@ -343,7 +364,9 @@ Definition holds21 (c : lcase) : bool :=
       (* the region formulation and the depth-counter formulation coincide whenever the plan uses only the four
          modes of the theorem *)
       && (negb (forallb (fun e => match snd (fst e) with MBefore | MAfter | MAlternate | MBlockAlt => true | _ => false end) (c_plan c))
-          || list_eqb fop_eqb (spec21 (c_plan c) (c_body c)) (dspec (c_plan c) (length (c_body c) - 1) 0 1 None true (c_body c)))
+          || (list_eqb fop_eqb (spec21 (c_plan c) (c_body c)) (dspec (c_plan c) (length (c_body c) - 1) 0 1 None true (c_body c))
+              (* ... and the hypotheses of the equivalence theorem hold on every in-domain case *)
+              && eqdom (c_plan c) (c_body c)))
   | None => false
   end.
 
